@@ -123,7 +123,9 @@ class Ctx:
         workers = min(workers or 16, NCPU, maxpar() if (workers or 16) > 1 else 1)
         xmx = xmx or ("4g" if self.quick else "8g")
         meta = os.path.join(d, "meta.%s.%d" % (cfg, int(time.time() * 1000) % 100000))
-        cmd = ["java", "-XX:+UseParallelGC", "-Xmx" + xmx, "-Xss64m"]
+        jtmp = os.path.join(d, "jtmp")          # TLC unpacks its standard modules into java.io.tmpdir on every run:
+        os.makedirs(jtmp, exist_ok=True)        # keep that inside the work dir (removed at exit), not in /tmp
+        cmd = ["java", "-XX:+UseParallelGC", "-Xmx" + xmx, "-Xss64m", "-Djava.io.tmpdir=" + jtmp]
         if deque:
             cmd.append("-Dtlc2.tool.queue.IStateQueue=StateDeque")
         cmd += ["-cp", TLA_CP, "tlc2.TLC", "-workers", str(workers), "-metadir", meta, "-config", cfg + ".cfg",
